@@ -266,6 +266,17 @@ func buildAndVerify(vc vcase) VObs {
 		}
 	}
 
+	// the verifier also holds a document of the OTHER kind with a statement of the SAME name and level skip, and (see the decoy
+	// below) that statement is used first: statement names are unique within one document only
+	twin := vc.sigMut%3 == 1 && in.Sel != "nildoc" && !in.Skip && !fx.injectIdentities
+	if twin {
+		skip := trustpolicy.SignatureVerification{VerificationLevel: "skip"}
+		if in.API == "Verify" {
+			blobDoc = &trustpolicy.BlobDocument{Version: "1.0", TrustPolicies: []trustpolicy.BlobTrustPolicy{{Name: "p", SignatureVerification: skip}}}
+		} else {
+			ociDoc = &trustpolicy.OCIDocument{Version: "1.0", TrustPolicies: []trustpolicy.OCITrustPolicy{{Name: blobName, SignatureVerification: skip, RegistryScopes: []string{"*"}}}}
+		}
+	}
 	opts := verifier.VerifierOptions{OCITrustPolicy: ociDoc, BlobTrustPolicy: blobDoc,
 		RevocationTimestampingValidator: ctxValidator{fx.tsaRev}}
 	if fx.manager != nil {
@@ -334,6 +345,15 @@ func buildAndVerify(vc vcase) VObs {
 				return SignEnvelope(EnvSpec{Format: vc.format, Chain: fx.chain, Scheme: fx.scheme, SigningTime: at(-2), Payload: dp, Agent: "verif-harness/decoy", ExtAttrs: dattrs})
 			})
 			dd.Annotations = nil
+			if twin && bv != nil && v != nil {
+				// first of all, the same-named skip statement of the other document
+				if in.API == "Verify" {
+					_, _ = bv.VerifyBlob(ctx, func(digest.Algorithm) (ocispec.Descriptor, error) { return dd, nil }, decoy,
+						notation.BlobVerifierVerifyOptions{SignatureMediaType: mt, TrustPolicyName: "p"})
+				} else {
+					_, _ = v.Verify(ctx, dd, decoy, notation.VerifierVerifyOptions{ArtifactReference: artifactRef(), SignatureMediaType: mt})
+				}
+			}
 			if in.API == "Verify" {
 				_, _ = v.Verify(ctx, dd, decoy, notation.VerifierVerifyOptions{ArtifactReference: artifactRef(), SignatureMediaType: mt})
 			} else {
